@@ -73,8 +73,8 @@ CASES = [
 
 CASES += [
     t("exit: local variables renamed", M,
-      "        bb = self.manager.basis_stack.pop()\n        # this is the transformation we got here with\n        SS = self.manager.basis_transformations.pop()\n        # This is the new basis\n        bss = len(self.manager.basis_stack)\n        nb = self.manager.basis_stack[bss-1]\n        \n        # inverse of the transformation matrix\n        S1 = numpy.linalg.inv(SS)     \n        \n        # transform all registered objects\n        operators = self.manager.basis_registered[bb]\n        \n        if nb != 0:\n            # operators registered with the context above this one\n            ops_above = self.manager.basis_registered[nb]\n\n        for op in operators:\n            # the operator might have been set to protected mode\n            # inside the context\n            if not op.is_basis_protected:\n                op.transform(S1,inv=SS) \n            op.set_current_basis(nb)\n            \n            # operators which appeared in this context and where not\n            # register in the one above are now registerd\n            if nb != 0:\n                if op not in ops_above:\n                    self.manager.register_with_basis(nb,op)\n            \n        self.manager.remove_current_basis_operator()\n            \n        del self.manager.basis_registered[bb]",
-      "        left = self.manager.basis_stack.pop()\n        TT = self.manager.basis_transformations.pop()\n        top = self.manager.basis_stack[-1]\n        Tinv = numpy.linalg.inv(TT)     \n        \n        if top != 0:\n            ops_above = self.manager.basis_registered[top]\n\n        for obj in self.manager.basis_registered[left]:\n            if not obj.is_basis_protected:\n                obj.transform(Tinv,inv=TT) \n            obj.set_current_basis(top)\n            if top != 0:\n                if obj not in ops_above:\n                    self.manager.register_with_basis(top,obj)\n            \n        self.manager.remove_current_basis_operator()\n            \n        del self.manager.basis_registered[left]"),
+      "        bb = self.manager.basis_stack.pop()\n        # this is the transformation we got here with\n        SS = self.manager.basis_transformations.pop()\n        # This is the new basis\n        bss = len(self.manager.basis_stack)\n        nb = self.manager.basis_stack[bss-1]\n        \n        # inverse of the transformation matrix\n        S1 = numpy.linalg.inv(SS)     \n        \n        # transform all registered objects\n        operators = self.manager.basis_registered[bb]\n        \n        if nb != 0:\n            # operators registered with the context above this one\n            ops_above = self.manager.basis_registered[nb]\n\n        for op in operators:\n            # the operator might have been set to protected mode\n            # inside the context\n            if not op.is_basis_protected:\n                op.transform(S1,inv=SS) \n            op.set_current_basis(nb)\n            \n            # operators which appeared in this context and where not\n            # register in the one above are now registerd\n            if nb != 0:\n                if op not in ops_above:\n                    self.manager.register_with_basis(nb,op)\n            \n        self.manager.store_current_basis_operator(self._op_backup.pop())\n            \n        del self.manager.basis_registered[bb]",
+      "        left = self.manager.basis_stack.pop()\n        TT = self.manager.basis_transformations.pop()\n        top = self.manager.basis_stack[-1]\n        Tinv = numpy.linalg.inv(TT)     \n        \n        if top != 0:\n            ops_above = self.manager.basis_registered[top]\n\n        for obj in self.manager.basis_registered[left]:\n            if not obj.is_basis_protected:\n                obj.transform(Tinv,inv=TT) \n            obj.set_current_basis(top)\n            if top != 0:\n                if obj not in ops_above:\n                    self.manager.register_with_basis(top,obj)\n            \n        self.manager.store_current_basis_operator(self._op_backup.pop())\n            \n        del self.manager.basis_registered[left]"),
 ]
 
 OPS = "quantarhei/qm/hilbertspace/operators.py"
@@ -93,4 +93,13 @@ CASES += [
     {"name": "copy registered through a named manager", "kind": "twin", "edits": [
         ("quantarhei/qm/liouvillespace/superoperator.py", "            if ob != 0:\n                oper_ven.manager.register_with_basis(ob, oper_ven)\n",
          "            mgr = oper_ven.manager\n            if ob != 0:\n                mgr.register_with_basis(ob, oper_ven)\n", 1)]},
+]
+
+CASES += [
+    {"name": "basis operator cleared on exit instead of restored (the repaired defect)", "kind": "mutant", "rule": "C04-B1", "edits": [
+        ("quantarhei/core/managers.py", "        self.manager.store_current_basis_operator(self._op_backup.pop())", "        self._op_backup.pop()\n        self.manager.remove_current_basis_operator()", 1)]},
+    {"name": "basis operator registered when the context object is created (the repaired defect)", "kind": "mutant", "rule": "C04-B1", "edits": [
+        ("quantarhei/core/managers.py", "        self._op_backup = []\n", "        self._op_backup = []\n        self.manager.store_current_basis_operator(self.op)\n", 1)]},
+    {"name": "previous basis operator kept in a differently named stack", "kind": "twin", "edits": [
+        ("quantarhei/core/managers.py", "self._op_backup", "self._previous_ops", 3)]},
 ]
